@@ -27,6 +27,7 @@ def hashers():
 
 
 def run(chk, quick, rnd):
+    explicit_salts(chk, rnd)
     for hd in hashers():
         name, base = hd["name"], hd["base"]
         keys = hd["keys"] + list(hd.get("fixed", {}))
@@ -99,6 +100,64 @@ def run(chk, quick, rnd):
                 if err:
                     chk.violation(f"{name}:kw-hash", f"{name}: {err}", detail)
         chk.traces += seen
+
+
+def explicit_salts(chk, rnd):
+    """a salt configured with using(salt=..) is the salt of the hashes made - under every ident / variant, in one call or chained"""
+    from passlib import registry
+    import passlib.utils.handlers as uh
+    for name in sorted(registry.list_crypt_handlers()):
+        try:
+            h = registry.get_crypt_handler(name)
+            w = getattr(h, "wrapped", h)
+            if not (isinstance(w, type) and issubclass(w, uh.HasSalt)) or "salt" not in h.setting_kwds:
+                continue
+            if hasattr(h, "has_backend") and not h.has_backend():
+                continue
+        except Exception:
+            continue
+        raw = issubclass(w, uh.HasRawSalt)
+        size = w.default_salt_size or w.min_salt_size or 8
+        if name in ("bcrypt", "bcrypt_sha256", "ldap_bcrypt", "django_bcrypt", "django_bcrypt_sha256"):
+            salt = "abcdefghijklmnopqrstuu"
+        elif raw:
+            salt = bytes(65 + (i % 26) for i in range(size))
+        else:
+            salt = "".join(w.default_salt_chars[(i * 7 + 3) % len(w.default_salt_chars)] for i in range(size))
+        kw = {}
+        if "rounds" in h.setting_kwds:
+            kw["rounds"] = 1 if name == "scrypt" else (w.min_rounds if w.rounds_cost == "log2" else max(w.min_rounds, 1))
+        ctx = {k: k for k in ("user", "realm") if k in h.context_kwds}
+        idents = [i for i in (getattr(w, "ident_values", None) or [None]) if i != "$2x$"] if "ident" in h.setting_kwds else [None]
+        for ident in idents:
+            ikw = {"ident": ident} if ident else {}
+            for route in ("one-call", "salt-then-ident", "ident-then-salt"):
+                if route != "one-call" and not ident:
+                    continue
+                chk.count((name, "explicit-salt", ident or "", route))
+                chk.action("kw.explicit-salt")
+                try:
+                    if route == "one-call":
+                        hh = h.using(salt=salt, **kw, **ikw)
+                    elif route == "salt-then-ident":
+                        hh = h.using(salt=salt, **kw).using(**ikw)
+                    else:
+                        hh = h.using(**ikw, **kw).using(salt=salt)
+                    s1 = hh.hash("pw", **ctx)
+                    text = h._unwrap_hash(s1) if hasattr(h, "wrapped") else s1
+                    got = w.from_string(text).salt
+                    ok = h.verify("pw", s1, **ctx)
+                except ValueError as ex:
+                    if "not allowed for version" in str(ex) or "not currently supported" in str(ex):
+                        continue            # (documented refusals: bcrypt_sha256 v2 only with 2b)
+                    chk.violation(f"{name}:explicit-salt:ValueError", f"{name}.using(salt=.., ident={ident}) [{route}] raised ValueError: {ex}", {"hasher": name, "ident": ident})
+                    continue
+                except Exception as ex:
+                    chk.violation(f"{name}:explicit-salt:{type(ex).__name__}", f"{name}.using(salt=.., ident={ident}) [{route}] raised {type(ex).__name__}: {ex}", {"hasher": name, "ident": ident})
+                    continue
+                if got != salt or not ok:
+                    chk.violation(f"{name}:explicit-salt:not-honoured", f"{name}.using(salt={salt!r}, ident={ident}) [{route}] made {s1[:60]}.. whose salt is {got!r} (verifies: {ok})",
+                                  {"hasher": name, "ident": ident, "route": route, "hash": s1})
 
 
 def real_kw(hd, kw):
